@@ -63,6 +63,11 @@ CLAIMS = {
    text="Theorems on the model of the option handling (Options.v): C14_last_wins (last of --threshold/--verbose/--no-verbose/--critical), C14_cmdline_overrides / C14_config_when_absent / C14_config_iff_absent (each sizer.* key matters exactly when no option of its family is given), C14_equivalences. Tie: per family, {absent, valid, invalid} gitconfig x all option sequences up to length 2-3 through the CLI (fakegit serves git config --get): the run must equal, byte for byte, the run of the canonical spelling of the model's effective settings, or fail exactly when the model fails; documented equivalent spellings are run in pairs.",
    note="Trusted: Coq kernel, extraction, harness, fakegit's emulation of `git config --get` exit codes; pflag's last-wins processing and strconv parsing are observed through the CLI, the model works on classified option tokens. --json-version validation was repaired (3481d3d).",
    technique="Coq proof on option-state model + paired CLI runs"),
+
+ "C18": dict(
+   text="Theorem C18_all_interleavings: in the LTS model of meter/meter.go (worker ops Start/Inc/Done in program order, ticks of every ticker goroutine ever started interleaved arbitrarily, each tick atomic under the mutex with the ticker-identity test), every schedule that completes the program yields output that is, phase by phase, a sorted run of progress frames bounded by the phase's work followed by exactly one final frame with the exact count, and nothing else (no stale frame after Done). C18_final_exact, C18_acceptor_sound, C18_counts_are_census (phase work = census counts). Tie: the real meter driven with 1us-1ms tickers and random scripts, recorded frames accepted by the proved-sound acceptor; CLI --progress vs --no-progress (identical stdout, final lines = census).",
+   note="PARTIAL: real timing is sampled, not enumerated; atomicity of Inc (sync/atomic) and of the locked sections is an assumption of the LTS. Trusted: Coq kernel, extraction, harness.",
+   technique="Coq proof over all interleavings of an LTS + randomized timing runs of the real meter"),
 }
 
 m = {
